@@ -20,8 +20,26 @@ import (
 // C16 - classes, defaults, presets and shipped lists are as documented.
 
 type c16Item struct {
-	What string `json:"what"`
-	Arg  int    `json:"arg"`
+	What  string `json:"what"`
+	Arg   int    `json:"arg"`
+	After bool   `json:"after_warmup,omitempty"`
+}
+
+// c16Warmup calls the library with a few thousand other recipes.
+func c16Warmup() {
+	for i := 0; i < 1<<15; i += 5 {
+		r := spg.CharRecipe{Length: 3 + i%7, Allow: spg.CTFlag(i & 31), Require: spg.CTFlag(i>>5) & 31, Exclude: spg.CTFlag(i>>10) & 31}
+		r.Alphabet()
+		if i%25 == 0 {
+			r.Entropy()
+			callForced(nil, func(k int, n uint32) uint32 { return uint32(k*5+i) % n }, uint64(i), r.Generate)
+		}
+	}
+	for _, f := range presetByName {
+		for i := 0; i < 4; i++ {
+			f()
+		}
+	}
 }
 
 var c16Flags = map[string]spg.CTFlag{"Uppers": spg.Uppers, "Lowers": spg.Lowers, "Digits": spg.Digits, "Symbols": spg.Symbols, "Ambiguous": spg.Ambiguous}
@@ -209,7 +227,10 @@ func c16Run(it c16Item) error {
 		}
 		ev.Leaves(int64(len(list)))
 	}
-	ev.NonTrivial(fmt.Sprintf("%s:%d", it.What, it.Arg))
+	if it.After && ev.Cfg.Replay != "" {
+		c16Warmup()
+	}
+	ev.NonTrivial(fmt.Sprintf("%s:%d:%v", it.What, it.Arg, it.After))
 	ev.Sample("c16", 8, it)
 	return nil
 }
@@ -221,20 +242,33 @@ func TestC16(t *testing.T) {
 	ev.Fixed(t, "c16_documented", func(do func(c16Item) bool) {
 		var items []c16Item
 		for i := 0; i < 5; i++ {
-			items = append(items, c16Item{"class", i})
+			items = append(items, c16Item{What: "class", Arg: i})
 		}
-		items = append(items, c16Item{"unions", 0})
+		items = append(items, c16Item{What: "unions"})
 		for _, n := range []int{-1, 0, 1, 2, 3, 7, 20, 64, int(ev.Cfg.Seed%1000) + 1} {
-			items = append(items, c16Item{"defaults", n})
+			items = append(items, c16Item{What: "defaults", Arg: n})
 		}
 		for i := 0; i < 7; i++ {
-			items = append(items, c16Item{"preset", i})
+			items = append(items, c16Item{What: "preset", Arg: i})
 		}
-		items = append(items, c16Item{"list", 0}, c16Item{"list", 1})
+		items = append(items, c16Item{What: "list", Arg: 0}, c16Item{What: "list", Arg: 1})
 		for i, it := range items {
 			if i%ev.Cfg.NShards != ev.Cfg.Shard {
 				continue
 			}
+			if !do(it) {
+				return
+			}
+		}
+		// "as documented" holds whatever was called before: repeat every item
+		// after a warm-up that uses many other recipes, presets and lists in
+		// this process (catches package-level state keyed too coarsely)
+		c16Warmup()
+		for i, it := range items {
+			if i%ev.Cfg.NShards != ev.Cfg.Shard || it.What == "list" {
+				continue
+			}
+			it.After = true
 			if !do(it) {
 				return
 			}
